@@ -277,6 +277,12 @@ pub fn gen_c08(o: &mut Out, tier: &str, seed: u64) {
     decode_family(o, &mut r, th);
     extract_family(o, &mut r, th);
     text_family(o, &mut r, th);
+    // the signer-based constructors take a second byte input of any length next to the signer: the public seed
+    for ty in ["elgamal", "ae"] {
+        let mut lens: Vec<usize> = vec![0, 1, 31, 32, 33, 63, 64, 65, 100, 119, 120, 121, 122, 123, 124, 125, 126, 127, 128, 129, 255, 256, 257, 511, 512, 1000, 4096, 65536];
+        if th { lens.extend(130..255); }
+        for l in lens { o.op("signer.public-seed-length", &format!("kdf {} signer {} {}", ty, hex(&r.bytes(64)), hex(&r.bytes(l)))); }
+    }
     // instruction / state decoders on arbitrary data (shared with C15/C16)
     for len in [0usize, 1, 2, 5, 33, 34, 97, 129] {
         let d = r.bytes(len);
@@ -571,6 +577,16 @@ pub fn gen_c11(o: &mut Out, tier: &str, seed: u64) {
         let c = commit(&x1, &r1) + commit(&x2, &r2);
         let d = r1 * k.p + r2 * k.p;
         o.op("dec.linear", &format!("elg dec {} {} {}", hs(&k.s), hp(&c), hp(&d)));
+        // ... down to the 32-bit amount: sums and differences landing on 0, the 2^16 boundary, 2^32-2, 2^32-1, and just
+        // outside (2^32, -1), decrypted through every route
+        let m32 = (1u64 << 32) - 1;
+        for (a, b, sub) in [(m32 - 1, 1u64, false), ((1u64 << 32) + 6, 7, true), (65535, 1, false), (0, 0, false), (m32, 0, false), (m32, 1, false),
+                            (5, 6, true), (1 << 31, (1 << 31) - 1, false), (u64::MAX, u64::MAX - m32, true), (r.below(1 << 31), r.below(1 << 31), false)] {
+            let (r1, r2) = (rand_scalar(&mut r), rand_scalar(&mut r));
+            let (xa, xb) = (Scalar::from(a), Scalar::from(b));
+            let (c, rr, x) = if sub { (commit(&xa, &r1) - commit(&xb, &r2), r1 - r2, xa - xb) } else { (commit(&xa, &r1) + commit(&xb, &r2), r1 + r2, xa + xb) };
+            o.op("dec32.combination", &format!("elg dec32 {} {} {} {}", hs(&k.s), hp(&c), hp(&(rr * k.p)), hs(&x)));
+        }
     }
 }
 
@@ -581,6 +597,17 @@ pub fn gen_c09(o: &mut Out, tier: &str, seed: u64) {
     // key pairs derived from a signer are consistent (public = s^-1 * H) whatever the signer answers later
     for _ in 0..(if th { 20 } else { 3 }) {
         o.op("derived-keypair.signer", &format!("kdf elgamal signer {} {}", hex(&r.bytes(64)), hex(&r.bytes(12))));
+    }
+    // ... and so are the ones derived from a seed or a seed phrase, through every route (inherent constructors and the
+    // derivation trait, on the key pair and on the secret key alone): one phrase, one key
+    for (ph, pw) in [("abandon abandon abandon abandon abandon abandon abandon abandon abandon abandon abandon about", "TREZOR"),
+                     ("legal winner thank year wave sausage worth useful legal winner thank yellow", ""), ("x", "y"), ("same", "same")] {
+        o.op("derived-keypair.phrase", &format!("kdf elgamal phrase {} {}", hex(ph.as_bytes()), hex(pw.as_bytes())));
+    }
+    for _ in 0..(if th { 20 } else { 3 }) {
+        let l = 32 + r.below(64) as usize;
+        o.op("derived-keypair.seed", &format!("kdf elgamal seed {}", hex(&r.bytes(l))));
+        o.op("derived-keypair.sig", &format!("kdf elgamal sig {}", hex(&r.bytes(64))));
     }
     // randomized grouped encryption with every arrangement of (possibly coinciding) key objects
     for pattern in ["", "0", "00", "01", "10", "000", "001", "010", "011", "100", "012", "021", "101", "110", "122", "221"] {
@@ -836,6 +863,19 @@ pub fn gen_c18(o: &mut Out, tier: &str, seed: u64) {
         if i % 2 == 0 { let k = r.below(31) as usize; b[k] = 0; }
         scalars.push(b);
     }
+    // values with internal structure (canonical scalars): both halves equal, four equal words, one byte throughout,
+    // a palindrome, halves that are complements: a wipe that is skipped or cut short "when there is nothing to wipe"
+    // by folding or comparing parts of the value would leave these behind
+    {
+        let mut half = r.bytes(16); half[15] &= 0x0f;
+        let mut eq = half.clone(); eq.extend(&half); scalars.push(eq);
+        let mut w = r.bytes(8); w[7] &= 0x0f;
+        scalars.push(w.iter().cycle().take(32).cloned().collect());
+        scalars.push(vec![0x07u8; 32]);
+        let mut pal = half.clone(); pal.reverse(); pal[0] &= 0x0f; let mut p2 = pal.clone(); p2.reverse(); let mut q = p2; q.extend(&pal);
+        q[31] &= 0x0f; scalars.push(q);
+        let mut c: Vec<u8> = half.iter().map(|b| !b).collect(); c[15] &= 0x0f; let mut q = half.clone(); q.extend(&c); scalars.push(q);
+    }
     for s in scalars.iter() {
         for how in ["decoded", "from", "cloned", "keypair-clone", "decoded-unwind", "cloned-unwind", "keypair-clone-unwind"] { o.op_exp(&format!("drop.secret.{}", how), "wiped", &format!("drop secret {} {}", how, hex(s))); }
         o.op_exp("drop.keypair.new-unwind", "wiped", &format!("drop keypair new-unwind {}", hex(s)));
@@ -866,6 +906,9 @@ pub fn gen_c18(o: &mut Out, tier: &str, seed: u64) {
         o.op_exp("drop.aekey.derived-unwind", "wiped", &format!("drop aekey derived-unwind {}", hex(&seedb)));
         o.op("debug.aekey", &format!("debug aekey {}", hex(&k)));
     }
+    for k in [r.bytes(8).iter().cycle().take(16).cloned().collect::<Vec<u8>>(), vec![0x5au8; 16], r.bytes(4).iter().cycle().take(16).cloned().collect()] {
+        for how in ["decoded", "from", "cloned", "decoded-unwind"] { o.op_exp(&format!("drop.aekey.structured.{}", how), "wiped", &format!("drop aekey {} {}", how, hex(&k))); }
+    }
     let mut k = vec![0u8; 16]; k[3] = 9;
     for how in ["decoded", "from", "cloned"] { o.op_exp(&format!("drop.aekey.{}", how), "wiped", &format!("drop aekey {} {}", how, hex(&k))); }
 }
@@ -878,15 +921,18 @@ pub fn gen_c10(o: &mut Out, tier: &str, seed: u64) {
     for k in [1u64, 2, 3, 255, 256, 32767, 32768, 65535] { for d in [0u64, 1, 65535] { xs.push(k * 65536 + d); } }
     // per-thread range ends / batch ends in the low 16 bits
     for lo in [999u64, 1000, 1001, 4095, 4096, 8191, 8192, 16383, 16384, 32767, 32768, 65000, 65199, 65200, 65504, 65534] { xs.push((r.below(65536) << 16) + lo); }
-    for _ in 0..(if th { 400 } else { 12 }) { xs.push(r.below(1 << 32)); }
+    let structured = xs.len();
+    for _ in 0..(if th { 200 } else { 12 }) { xs.push(r.below(1 << 32)); }
     let threads: Vec<&str> = if th { vec!["-", "1", "2", "4", "8", "16", "32", "64", "256", "1024"] } else { vec!["-", "1", "2", "8", "64"] };
     let batches: Vec<&str> = if th { vec!["-", "1", "2", "31", "32", "33", "100", "1000", "2000", "4096", "65535"] } else { vec!["-", "33", "1000", "65535"] };
-    for x in xs.iter() {
+    for (n, x) in xs.iter().enumerate() {
         let t = hp(&(Scalar::from(*x) * G));
         let k = hs(&Scalar::from(*x));
         for (i, thr) in threads.iter().enumerate() {
             for (j, b) in batches.iter().enumerate() {
                 if !th && (i + j + (*x as usize)) % 3 != 0 && !(thr == &"-" && b == &"-") { continue; }
+                // thorough: the whole grid on the structured amounts, a rotating quarter of it on the random ones
+                if th && n >= structured && (i + j + (*x as usize)) % 4 != 0 && !(thr == &"-" && b == &"-") { continue; }
                 o.op_exp("in-range", &format!("some:{}", x), &format!("dlog {} {} {} {}", t, k, thr, b));
             }
         }
@@ -918,7 +964,7 @@ pub fn gen_c10(o: &mut Out, tier: &str, seed: u64) {
         let t = hp(&(Scalar::from(*x) * G));
         let k = hs(&Scalar::from(*x));
         for (j, sq) in seqs.iter().enumerate() {
-            if !th && (i + j) % 3 != 0 { continue; }
+            if (!th || i >= structured) && (i + j) % 3 != 0 { continue; }
             o.op_exp("setter-sequence", &format!("some:{}", x), &format!("dlogseq {} {} {}", t, k, sq));
         }
     }
